@@ -79,7 +79,14 @@ func runScriptCtx(parent context.Context, sv SolverCfg, file string, perQueryMs 
 	return res, secs, nil
 }
 
+// crossCheck (thorough tier): every path script is also run through the other back ends; an obligation is
+// "confirmed" when a second, independent solver answers unsat as well; a `sat` answer contradicting an `unsat`
+// is reported as a failure (solver disagreement).
+var crossCheck = false
+
 type SolveStats struct {
+	Confirmed int
+	Disagree  int
 	Scripts   int
 	SolverSec map[string]float64
 	mu        sync.Mutex
@@ -174,6 +181,43 @@ func solvePath(ps *PathScript, workDir string, perQueryMs int, onlySolver string
 				}
 			}
 		}
+	}
+	if crossCheck && onlySolver == "" {
+		defer func() {
+			for _, sv := range solvers[2:] { // z3 4.8.12 and cvc5: different code bases from the deciding z3 5.1
+				file := base + ".cross." + sv.Name + ".smt2"
+				if err := os.WriteFile(file, []byte(sv.Pre+ps.Script), 0o644); err != nil {
+					continue
+				}
+				res, secs, _ := runScript(sv, file, 5000, nobl)
+				record(sv, secs)
+				for _, o := range ps.Obls {
+					if o.Trivial || o.Kind == "cover" {
+						continue
+					}
+					switch res[o.Seq] {
+					case "unsat":
+						if o.Status == "unsat" && o.Solver != sv.Name {
+							o.Confirm = append(o.Confirm, sv.Name)
+						}
+					case "sat":
+						if o.Status == "unsat" {
+							o.Status = "disagree(" + sv.Name + " answers sat)"
+							stats.mu.Lock()
+							stats.Disagree++
+							stats.mu.Unlock()
+						}
+					}
+				}
+			}
+			for _, o := range ps.Obls {
+				if len(o.Confirm) > 0 {
+					stats.mu.Lock()
+					stats.Confirmed++
+					stats.mu.Unlock()
+				}
+			}
+		}()
 	}
 	// pass 2: every obligation that is not discharged, isolated, raced through all back ends in parallel
 	if ps.Slow {
